@@ -332,6 +332,13 @@ func (s c17Spec) reference() (tables []expTable, ambiguous bool) {
 						} else {
 							pval = r.P
 						}
+						// the library's answer is only used for its last bits: when the test applies and what it
+						// yields is decided here from the textbook definition (exact means and variances)
+						wp, wreason := refWelch(rvals[0], rvals[1])
+						if wreason != reason || (reason == "" && !(math.Abs(pval-wp) <= 1e-9*(1+wp))) {
+							t.metric += fmt.Sprintf(" [Welch t-test of %v and %v: library gives p=%v %s, textbook p=%v %s]", rvals[0], rvals[1], pval, reason, wp, wreason)
+							pval, reason = wp, wreason
+						}
 					default:
 						r, err := stats.MannWhitneyUTest(rvals[0], rvals[1], stats.LocationDiffers)
 						if err != nil {
@@ -453,6 +460,36 @@ func stableSort(rows []expRow, less func(a, b expRow) bool) {
 			rows[j], rows[j-1] = rows[j-1], rows[j]
 		}
 	}
+}
+
+// refWelch is Welch's two-sample t-test (two-sided) from its definition: it needs at least two values on each side
+// and at least one side with spread; the statistic and the degrees of freedom come from exact means and variances.
+func refWelch(x1, x2 []float64) (p float64, reason string) {
+	if len(x1) <= 1 || len(x2) <= 1 {
+		return -1, "(too few samples)"
+	}
+	ev := func(xs []float64) (mean, variance float64) {
+		m := exactMean(xs)
+		ss := new(big.Rat)
+		for _, x := range xs {
+			d := new(big.Rat).Sub(ratOf(x), m)
+			ss.Add(ss, d.Mul(d, d))
+		}
+		ss.Quo(ss, big.NewRat(int64(len(xs)-1), 1))
+		mf, _ := m.Float64()
+		vf, _ := ss.Float64()
+		return mf, vf
+	}
+	m1, v1 := ev(x1)
+	m2, v2 := ev(x2)
+	if v1 == 0 && v2 == 0 {
+		return -1, "(zero variance)"
+	}
+	n1, n2 := float64(len(x1)), float64(len(x2))
+	a, b := v1/n1, v2/n2
+	dof := (a + b) * (a + b) / (a*a/(n1-1) + b*b/(n2-1))
+	t := (m1 - m2) / math.Sqrt(a+b)
+	return 2 * (1 - stats.TDist{V: dof}.CDF(math.Abs(t))), ""
 }
 
 func errReason(err error) string {
